@@ -10,11 +10,20 @@ let show_tokens (l : token list) : string =
   | [] -> "ok -"
   | _ -> "ok " ^ String.concat "," (List.map show_token l)
 
+(* the buffer after a successful call is compared on the header fields the property and the parser speak of
+   (Signature, SizeOfHeader: 0..5; SizeOfAPCB: 8..11; Signature2: 32..35; SignatureEnding: 124..127) and on
+   everything behind the 128-byte header; same projection as harness/cmd/c18 project() *)
+let rec drop n l = if n <= 0 then l else match l with [] -> [] | _ :: r -> drop (n - 1) r
+let rec take n l = if n <= 0 then [] else match l with [] -> [] | x :: r -> x :: take (n - 1) r
+let project (b : z list) : z list =
+  if List.length b < 128 then b
+  else take 6 b @ take 4 (drop 8 b) @ take 4 (drop 32 b) @ take 4 (drop 124 b) @ drop 128 b
+
 (* UpsertToken: the buffer afterwards is part of the observation also when an error is returned *)
 let show_upsert (o : (z list * z) outcome) : string =
   match o with
   | Ok (b, e) ->
-    if int_of_z e = 0 then "ok " ^ hex_of_bytes b
+    if int_of_z e = 0 then "ok " ^ hex_of_bytes (project b)
     else "err " ^ hex_of_z e ^ " " ^ hex_of_bytes b
   | Err e -> "err " ^ hex_of_z e
   | Panic _ -> "panic"
